@@ -153,7 +153,13 @@ class Gen:
         k = rs.weighted(w)
         if k == "asg":
             t, kind = self.target(env)
-            return ["asg", t, self.rhs(env, kind), rs.below(2) if t[0] == "sig" else 0]
+            envr = env
+            early = env.get("comb_early")
+            if early and t[1] != early and t[0] in ("sig", "slice", "bit"):
+                # an unclocked sequential context may read back a signal it drives itself (assigned only from inputs and
+                # registered objects, never guarded by itself): the process must then be sensitive to it
+                envr = dict(env, read_vec=env["read_vec"] + [early])
+            return ["asg", t, self.rhs(envr, kind), rs.below(2) if t[0] == "sig" else 0]
         if k == "var":
             v = rs.choice(env["vars"])
             e = ["add", ["var", v], ["k", 1]] if rs.below(3) == 0 else self.vexpr(env)
@@ -265,7 +271,7 @@ class Gen:
                     donor["owns"].remove(mv)
                     c["owns"].append(mv)
         ctxs = [c for c in ctxs if [o for o in c["owns"] if o not in ("mem", "pz")] or c["owns"]]
-        prog = {"edge": "rising", "ctxs": [], "var_init": {"v0": rs.below(16), "v1": rs.below(16), "w0": rs.below(2), "b0": rs.below(2)}}
+        prog = {"edge": "rising", "ctxs": [], "var_init": {"v0": rs.below(16), "v1": rs.below(16), "w0": rs.below(2), "b0": rs.below(2)}, "pz_noreset": rs.below(3) == 0}
         # targets hoisted with `with cohdl.always:` are combinational: chosen up front so that no combinational
         # context (and no hoisted expression) reads them -> no combinational loops
         hoisted = {}
@@ -295,6 +301,10 @@ class Gen:
                 "temps": [],
                 "calls_ok": kind == "clocked",
             }
+            if kind == "comb":
+                own_vec = [o for o in c["owns"] if o in VEC_OUT + VEC_SIG]
+                if len(own_vec) >= 2 and rs.below(2):
+                    env["comb_early"] = own_vec[0]
             if kind != "clocked":
                 # combinational contexts may only read registered objects or inputs, never other combinational
                 # targets of a later context that reads them back: keep it acyclic by reading only objects owned
@@ -526,7 +536,9 @@ def render(prog, attrs=None):
         L.append(f"    {o} = Port.output(Unsigned[4], default=0)")
     for o in BIT_OUT:
         L.append(f"    {o} = Port.output(Bit, default=False)")
-    L += ["    pz = Port.output(Unsigned[4], default=5)", "    mr = Port.output(Unsigned[4])", "", "    def architecture(self):"]
+    # (a pushed target that is also noreset still falls back to its default in every step without a push)
+    pz_decl = "    pz = Port.output(Unsigned[4], default=5, noreset=True)" if prog.get("pz_noreset") else "    pz = Port.output(Unsigned[4], default=5)"
+    L += [pz_decl, "    mr = Port.output(Unsigned[4])", "", "    def architecture(self):"]
     for s in VEC_SIG:
         L.append(f"        {s} = Signal[Unsigned[4]](0)")
     L.append("        g0 = Signal[Bit](False)")
